@@ -219,9 +219,11 @@ theorem edit_then_parse (a : AbstractModel) (h : WF a = true) (hcan : Canonical 
   obtain ⟨hrep, hsm⟩ := rep_history2 es a a' (parsedOf a v0) mE ces
     (small_of_wf a h) hrep0 (starts_initial a h hcan v0 hv0) (rep_rangesDisjoint' h hrep0) hes ha' hces hE
   have hlc : a'.lodCount = a.lodCount := by
-    have e1 : mE.fileHeader.lodCount = a'.lodCount := (congrArg FileHeader.lodCount hrep.fh :)
-    have e2 := (history_frame ces (parsedOf a v0) mE hE).lodCount
-    rw [← e1, e2]; rfl
+    apply UInt8.toNat_inj.mp
+    have e1 := rep_parts_length h' hrep
+    have e2 := (history_frame ces (parsedOf a v0) mE hE).partsLen
+    have e3 : (parsedOf a v0).lods.length = a.lodCount.toNat := parsedOf_lods_length a h v0 hv0
+    omega
   have hun : UnusedEmpty a'.lodCount.toNat mE.fileHeader := by
     rw [hlc]
     exact unusedEmpty_history ces (parsedOf a v0) mE hE _
